@@ -41,21 +41,14 @@ def deliverable(versions):
             except Exception as exc:
                 w.escaped(exc, "wake-up flush raised for an accepted desired value")
             has_reported = w.or_(*[w.eq(vt_int, k) for k in reported])
-            sent = []
-            for e in C.emissions(g):
-                em = w.new(Message, e)
-                sent.append(w.and_(w.eq(em.node_id, nid), w.eq(em.child_id, cid), w.eq(em.type, 1),
-                                   w.eq(em.sub_type, vt_int), w.eq(em.payload, value)))
+            want_line = C.structured_line(w, [nid, cid, 1, 0, vt_int], value)
+            sent = [C.line_eq(w, e, want_line) for e in C.emissions(g)]
             w.check(w.implies(has_reported, w.or_(*sent)),
                     "accepted desired value for a reported value type was not sent at wake-up")
             # and again at the next wake-up (not yet confirmed by the node)
             del g.conn.written[:]
             C.step_line(w, g, C.wakeup_line(w, version, nid))
-            sent = []
-            for e in C.emissions(g):
-                em = w.new(Message, e)
-                sent.append(w.and_(w.eq(em.child_id, cid), w.eq(em.type, 1),
-                                   w.eq(em.sub_type, vt_int), w.eq(em.payload, value)))
+            sent = [C.line_eq(w, e, want_line) for e in C.emissions(g)]
             w.check(w.implies(has_reported, w.or_(*sent)),
                     "pending desired value was not re-sent at the following wake-up")
     return fn
